@@ -59,6 +59,35 @@ Proof.
   intros Hg. induction l; simpl; intros s; auto. apply safe_bind; auto.
 Qed.
 
+(* local copies of three small facts about strings (also in Splits.v) *)
+Lemma g_str_eqb_iff a b : str_eqb a b = true <-> a = b.
+Proof.
+  revert b. induction a as [|x a IH]; intros [|y b]; simpl; split; intros H; try reflexivity; try discriminate.
+  - apply andb_true_iff in H as [H1 H2]. apply N.eqb_eq in H1. apply IH in H2. congruence.
+  - injection H as -> ->. apply andb_true_iff. split; [apply N.eqb_refl | apply IH; reflexivity].
+Qed.
+
+Lemma g_mem_str_false x l : ~ In x l -> mem_str x l = false.
+Proof.
+  intros H. unfold mem_str. destruct (existsb (str_eqb x) l) eqn:E; auto.
+  apply existsb_exists in E as (y & Hy & E). apply g_str_eqb_iff in E. subst. tauto.
+Qed.
+
+Lemma g_dedup_str_NoDup_id l : NoDup l -> dedup_str l = l.
+Proof.
+  induction 1 as [|x l Hx _ IH]; simpl; auto.
+  rewrite (g_mem_str_false _ _ Hx), IH. reflexivity.
+Qed.
+
+Lemma NoDup_map_in {A B} (f : A -> B) l :
+  (forall x y, In x l -> In y l -> f x = f y -> x = y) -> NoDup l -> NoDup (map f l).
+Proof.
+  intros Hinj Hnd. induction Hnd as [|x l Hx Hnd IH]; simpl; constructor.
+  - intros Hin. apply in_map_iff in Hin as (y & E & Hy).
+    assert (y = x) by (apply Hinj; simpl; auto). subst. tauto.
+  - apply IH. intros; apply Hinj; simpl; auto.
+Qed.
+
 Section Gen.
 Context {L : Type}.
 Notation arena := (@arena L).
@@ -870,31 +899,28 @@ Proof.
     + right. exists j. splits; auto.
 Qed.
 
-Lemma cat_loop_inv P b n : forall steps i t parent lens t',
-  1 <= i -> i + steps = n -> 1 <= steps ->
-  GI P b (i - 1) t -> CI (i - 1) t -> parent = pid (i - 1) -> Forall P lens ->
-  gen_cat_loop steps i n b t parent lens = Ok (Some t') ->
+Lemma cat_loop_inv P b n : forall steps m t parent lens t',
+  S m + steps = n -> 1 <= steps ->
+  GI P b m t -> CI m t -> parent = pid m -> Forall P lens ->
+  gen_cat_loop steps (S m) n b t parent lens = Ok (Some t') ->
   GI P b (n - 1) t' /\ CF (n - 2) t'.
 Proof.
-  induction steps as [|k IH]; intros i t parent lens t' Hi Hn Hs G HC -> HF H; [lia|].
-  simpl in H.
+  induction steps as [|k IH]; intros m t parent lens t' Hn Hs G HC -> HF H; [lia|].
+  cbn [gen_cat_loop] in H.
   destruct (take2 b lens) as [[[l1' l2'] lens']|] eqn:Ht; [|discriminate].
   destruct (take2_ok _ _ _ _ _ _ HF Ht) as (He1 & He2 & HF').
   pose proof (CI_parent_tip _ _ _ _ G HC) as Htp.
-  destruct (Nat.eqb_spec i (n - 1)) as [E|E].
+  destruct (Nat.eqb_spec (S m) (n - 1)) as [E|E].
   - apply bind_Ok in H as ([t1 c1] & H1 & H). apply bind_Ok in H as ([t2 c2] & H2 & H).
     destruct (split_step _ _ _ _ _ _ _ _ _ _ _ _ _ G Htp He1 He2 H1 H2) as (np & Hnp & Hc & -> & -> & -> & G').
-    assert (k = 0) by lia. subst k. simpl in H. destruct lens'; [|discriminate]. injection H as <-.
-    replace (n - 1) with (S (i - 1)) by lia. split; auto.
-    replace (n - 2) with (i - 1) by lia.
-    replace i with (S (i - 1)) at 2 3 by lia. replace (S (i - 1) + 1) with (S (i - 1) + 1) by lia.
+    assert (k = 0) by lia. subst k. cbn [gen_cat_loop] in H. destruct lens'; [|discriminate]. injection H as <-.
+    replace (n - 1) with (S m) by lia. split; auto.
+    replace (n - 2) with m by lia.
     eapply CF_step; eauto.
   - apply bind_Ok in H as ([t1 c1] & H1 & H). apply bind_Ok in H as ([t2 c2] & H2 & H).
     destruct (split_step _ _ _ _ _ _ _ _ _ _ _ _ _ G Htp He1 He2 H1 H2) as (np & Hnp & Hc & -> & -> & -> & G').
-    eapply IH; [| | | | | |eauto|eauto]; try lia.
-    + replace (S i - 1) with (S (i - 1)) by lia. auto.
-    + replace (S i - 1) with (S (i - 1)) by lia. replace i with (S (i - 1)) at 2 by lia.
-      eapply CI_step; eauto.
+    eapply (IH (S m)); [| | | | |eauto|eauto]; try lia; auto.
+    + eapply CI_step; eauto.
     + rewrite (gi_len _ _ _ _ G). unfold pid. lia.
 Qed.
 
@@ -905,7 +931,7 @@ Proof.
   intros Hn H. unfold generate_caterpillar in H.
   change (gen_cat_loop (n - 1) 1 n b t0 0 lens = Ok (Some t)) in H.
   assert (HF : Forall (fun l => In l lens) lens) by (apply Forall_forall; auto).
-  destruct (cat_loop_inv (fun l => In l lens) b n (n - 1) 1 t0 0 lens t) as (G & HC); auto; try lia.
+  destruct (cat_loop_inv (fun l => In l lens) b n (n - 1) 0 t0 0 lens t) as (G & HC); auto; try lia.
   - apply GI_init.
   - apply CI_init.
   - split; auto. split; auto.
@@ -918,4 +944,273 @@ Proof.
       assert (E' : tip_name j = tip_name j') by congruence. apply tip_name_inj in E'. lia.
 Qed.
 
+(* ================================================================================================ *)
+(* 6. the statements of C17                                                                          *)
+(* ================================================================================================ *)
+(* t is an outcome of one of the three generators, for some sequence of random draws *)
+Definition generated (n : nat) (b : bool) (lens : list L) (t : arena) : Prop :=
+  (exists parents, generate_tree n b parents lens = Ok (Some t)) \/
+  (exists parents, generate_yule n b parents lens = Ok (Some t)) \/
+  generate_caterpillar n b lens = Ok (Some t).
+
+Lemma generated_final n b lens t :
+  2 <= n -> generated n b lens t -> exists lo, gen_final (fun l => In l lens) b lo n t.
+Proof.
+  intros Hn [(ps & H)|[(ps & H)|H]].
+  - exists 0. eapply ete3_final; eauto.
+  - exists 0. eapply yule_final; eauto.
+  - exists 1. eapply cat_final; eauto.
+Qed.
+
+Lemma Forall2_length' {A B} (R : A -> B -> Prop) l l' : Forall2 R l l' -> length l = length l'.
+Proof. induction 1; simpl; auto. Qed.
+
+Lemma slots_strict_binary t :
+  (forall i nd, nth_error t i = Some nd -> nchildren nd = [] \/ exists a c, nchildren nd = [a; c]) ->
+  forall r p d i, Rep t p d i r -> strict_binary r = true.
+Proof.
+  intros Hs. induction r as [j cs IH] using RepLib.rtree_ind'. intros p d i HR.
+  destruct (RepLib.Rep_inv _ _ _ _ _ HR) as (n & cs' & Heq & Hn & _ & _ & _ & _ & HF & _).
+  injection Heq as -> ->. simpl. apply andb_true_iff. split.
+  - rewrite <- (Forall2_length' _ _ _ HF).
+    destruct (Hs _ _ Hn) as [->|(a & c & ->)]; reflexivity.
+  - apply forallb_forall. intros c Hc. destruct (Forall2_In_r _ _ _ _ HF Hc) as (kc & _ & HRc).
+    rewrite Forall_forall in IH. eapply IH; eauto.
+Qed.
+
+Section Final.
+Variables (n : nat) (b : bool) (lens : list L) (t : arena).
+Hypothesis Hn : 2 <= n.
+Hypothesis Hgen : generated n b lens t.
+
+(* well-formed; no removed slot; 2n-1 nodes *)
+Theorem gen_wf :
+  WFS t /\ WF t /\ (forall i nd, nth_error t i = Some nd -> ndeleted nd = false /\ nid nd = i) /\
+  length t = 2 * n - 1.
+Proof.
+  destruct (generated_final _ _ _ _ Hn Hgen) as (lo & G & _). splits.
+  - apply G.
+  - apply WFS_WF, G.
+  - intros i nd H. destruct (gi_slot _ _ _ _ G _ _ H) as (? & ? & _). auto.
+  - rewrite (gi_len _ _ _ _ G). lia.
+Qed.
+
+(* exactly n leaves *)
+Theorem gen_leaves : n_leaves t = n /\ length (get_leaves t) = n /\ NoDup (get_leaves t).
+Proof.
+  destruct (generated_final _ _ _ _ Hn Hgen) as (lo & G & _).
+  rewrite length_get_leaves, (gi_nl _ _ _ _ G). splits; try lia. eapply NoDup_get_leaves; eauto.
+Qed.
+
+(* binary and rooted, slot by slot: every node has no or two children, slot 0 is the only node without
+   parent and has two children *)
+Theorem gen_binary :
+  (forall i nd, nth_error t i = Some nd -> length (nchildren nd) = 0 \/ length (nchildren nd) = 2) /\
+  (exists n0, nth_error t 0 = Some n0 /\ nparent n0 = None /\ length (nchildren n0) = 2) /\
+  (forall i nd, nth_error t i = Some nd -> i <> 0 -> nparent nd <> None).
+Proof.
+  destruct (generated_final _ _ _ _ Hn Hgen) as (lo & G & _). splits.
+  - intros i nd H. destruct (gi_slot _ _ _ _ G _ _ H) as (_ & _ & [->|(a & c & ->)]); auto.
+  - destruct (gi_root _ _ _ _ G) as (n0 & H0 & Hp0 & _ & [Hk|(a & c & Hc)]); [lia|].
+    exists n0. rewrite Hc. auto.
+  - intros i nd H Hi. destruct (gi_nonroot _ _ _ _ G _ _ H Hi) as ((p & ->) & _). discriminate.
+Qed.
+
+(* the same through the rose tree represented by the arena, and through the crate's own predicates *)
+Theorem gen_binary_tree :
+  exists r, Rep t None 0 0 r /\ NoDup (ids r) /\ (forall i, live t i -> In i (ids r)) /\
+            strict_binary r = true /\ length (Spec.rch r) = 2 /\
+            length (rleaves r) = n /\ rsize r = 2 * n - 1 /\
+            is_rooted t = Ok true /\ is_binary t = Ok true /\ check_rooted_binary t = Ok tt.
+Proof.
+  destruct (generated_final _ _ _ _ Hn Hgen) as (lo & G & _).
+  destruct (GI_tree _ _ _ _ G) as (r & HR & Hnd & Hcov). exists r.
+  assert (Hsb : strict_binary r = true).
+  { eapply slots_strict_binary; eauto. intros i nd H. apply (gi_slot _ _ _ _ G _ _ H). }
+  assert (Hroot : length (Spec.rch r) = 2).
+  { destruct (RepLib.Rep_inv _ _ _ _ _ HR) as (n0 & cs & -> & Hn0 & _ & _ & _ & _ & HF & _). simpl.
+    rewrite <- (Forall2_length' _ _ _ HF).
+    destruct (gi_root _ _ _ _ G) as (n0' & H0 & _ & _ & [Hk|(a & c & Hc)]); [lia|].
+    assert (n0' = n0) by congruence. subst. rewrite Hc. reflexivity. }
+  assert (HB : Blank t).
+  { intros i nd H Hd. destruct (gi_slot _ _ _ _ G _ _ H) as (Hd' & _). congruence. }
+  pose proof (strict_binary_arity _ Hsb) as Har.
+  pose proof (is_rooted_refines t 0 r HR Hnd Hcov) as Hir. rewrite Hroot in Hir.
+  pose proof (is_binary_refines t 0 r HR Hnd Hcov HB) as Hib. unfold binary_spec in Hib.
+  rewrite Hroot, Har in Hib.
+  splits; auto.
+  - rewrite <- (n_leaves_refines t 0 r HR Hnd Hcov). rewrite (gi_nl _ _ _ _ G). lia.
+  - rewrite rsize_ids. rewrite <- (Permutation_length (live_idx_perm t 0 r HR Hnd Hcov)).
+    unfold live_idx. rewrite filter_id.
+    + rewrite seq_length, (gi_len _ _ _ _ G). lia.
+    + intros i Hi. apply in_seq in Hi. unfold livei.
+      destruct (gi_slot _ _ _ _ G i (slot t i)) as (-> & _); auto. apply nth_error_slot. lia.
+  - eapply check_rooted_binary_ok; eauto.
+Qed.
+
+(* all leaves are named Tip_j, with pairwise different names *)
+Theorem gen_names_unique :
+  (forall i nd, nth_error t i = Some nd -> nchildren nd = [] ->
+     exists j, j <= n /\ nname nd = Some (tip_name j)) /\
+  (forall i i' nd nd', nth_error t i = Some nd -> nth_error t i' = Some nd' ->
+     nchildren nd = [] -> nchildren nd' = [] -> i <> i' -> nname nd <> nname nd').
+Proof.
+  destruct (generated_final _ _ _ _ Hn Hgen) as (lo & G & Hnm & Hdist). split; auto.
+  intros i nd Hi Hc. destruct (Hnm _ _ Hi Hc) as (j & Hj & E). exists j. split; auto.
+  destruct Hgen as [(ps & H)|[(ps & H)|H]].
+  - destruct (ete3_final _ _ _ _ _ H) as (_ & Hnm' & _). destruct (Hnm' _ _ Hi Hc) as (j' & Hj' & E').
+    assert (E2 : tip_name j = tip_name j') by congruence. apply tip_name_inj in E2. lia.
+  - destruct (yule_final _ _ _ _ _ H) as (_ & Hnm' & _). destruct (Hnm' _ _ Hi Hc) as (j' & Hj' & E').
+    assert (E2 : tip_name j = tip_name j') by congruence. apply tip_name_inj in E2. lia.
+  - destruct (cat_final _ _ _ _ Hn H) as ((_ & Hnm' & _) & _). destruct (Hnm' _ _ Hi Hc) as (j' & Hj' & E').
+    assert (E2 : tip_name j = tip_name j') by congruence. apply tip_name_inj in E2. lia.
+Qed.
+
+(* branch lengths: all present (and drawn from the supplied list) when requested, all absent otherwise *)
+Theorem gen_lengths :
+  (b = true -> forall i nd, nth_error t i = Some nd -> i <> 0 -> exists l, npedge nd = Some l /\ In l lens) /\
+  (b = false -> forall i nd, nth_error t i = Some nd -> npedge nd = None) /\
+  (forall nd, nth_error t 0 = Some nd -> npedge nd = None).
+Proof.
+  destruct (generated_final _ _ _ _ Hn Hgen) as (lo & G & _).
+  assert (H0 : forall nd, nth_error t 0 = Some nd -> npedge nd = None).
+  { intros nd H. destruct (gi_root _ _ _ _ G) as (n0 & H0 & _ & He & _). congruence. }
+  splits; auto.
+  - intros -> i nd H Hi. destruct (gi_nonroot _ _ _ _ G _ _ H Hi) as (_ & He). exact He.
+  - intros -> i nd H. destruct (Nat.eq_dec i 0) as [->|Hi]; auto.
+    destruct (gi_nonroot _ _ _ _ G _ _ H Hi) as (_ & He). exact He.
+Qed.
+
+(* the crate's own check of leaf names succeeds *)
+Theorem gen_unique_names_check : has_unique_tip_names t = Ok true.
+Proof.
+  destruct (generated_final _ _ _ _ Hn Hgen) as (lo & G & Hnm & Hdist).
+  set (nm := fun i => match nname (slot t i) with Some x => x | None => [] end).
+  assert (Htip : forall i, In i (get_leaves t) ->
+            nth_error t i = Some (slot t i) /\ nchildren (slot t i) = [] /\ nname (slot t i) = Some (nm i)).
+  { intros i Hi. apply (In_get_leaves _ _ _ _ _ G) in Hi as (nd & Hi & Hc).
+    rewrite (slot_nth_error _ _ _ Hi). splits; auto. unfold nm. rewrite (slot_nth_error _ _ _ Hi).
+    destruct (Hnm _ _ Hi Hc) as (j & _ & ->). reflexivity. }
+  assert (Hnames : get_leaf_names t = Ok (map Some (map nm (get_leaves t)))).
+  { unfold get_leaf_names. rewrite map_map. apply mapM_ok. intros i Hi.
+    destruct (Htip _ Hi) as (Hs & _ & Hname). rewrite (GI_get _ _ _ _ _ _ G Hs). congruence. }
+  unfold has_unique_tip_names. rewrite Hnames. cbn [bind].
+  assert (E1 : existsb (fun o : option str => match o with None => true | Some _ => false end)
+                 (map Some (map nm (get_leaves t))) = false).
+  { generalize (map nm (get_leaves t)). intros l0. induction l0 as [|x l0 IHl]; simpl; auto. }
+  rewrite E1.
+  assert (E2 : flat_map (fun o : option str => match o with Some x => [x] | None => [] end)
+                 (map Some (map nm (get_leaves t))) = map nm (get_leaves t)).
+  { generalize (map nm (get_leaves t)). intros l0. induction l0 as [|x l0 IHl]; simpl; auto. f_equal; auto. }
+  rewrite E2. rewrite g_dedup_str_NoDup_id.
+  - rewrite map_length, length_get_leaves, Nat.eqb_refl. reflexivity.
+  - apply NoDup_map_in; [|eapply NoDup_get_leaves; eauto].
+    intros i i' Hi Hi' E. destruct (Htip _ Hi) as (Hs & Hc & Hname). destruct (Htip _ Hi') as (Hs' & Hc' & Hname').
+    destruct (Nat.eq_dec i i') as [|Hne]; auto. exfalso.
+    apply (Hdist _ _ _ _ Hs Hs' Hc Hc' Hne). congruence.
+Qed.
+
+End Final.
+
+(* ================================================================================================ *)
+(* 7. the caterpillar generator returns the caterpillar                                              *)
+(* ================================================================================================ *)
+(* the subtree hanging from spine node number j with k internal nodes: ((((..),L),L),L) *)
+Fixpoint cat_rt (k : nat) (j : nat) : rtree :=
+  match k with
+  | 0 => RT (pid j) []
+  | S k' => RT (pid j) [cat_rt k' (S j); RT (S (pid (S j))) []]
+  end.
+Definition caterpillar_rtree (n : nat) : rtree := cat_rt (n - 1) 0.
+
+Lemma CF_tip m t i nd :
+  CF m t -> nth_error t i = Some nd -> (forall j, j <= m -> i <> pid j) -> nchildren nd = [].
+Proof.
+  intros HC Hi Hne. destruct (HC _ _ Hi) as [(j & Hj & -> & _)|(j & Hc & _)]; auto.
+  exfalso. eapply Hne; eauto.
+Qed.
+
+Lemma CF_internal m t j nd :
+  CF m t -> j <= m -> nth_error t (pid j) = Some nd -> nchildren nd = [pid (S j); S (pid (S j))].
+Proof.
+  intros HC Hj Hi. destruct (HC _ _ Hi) as [(j' & Hj' & E & Hc)|(j' & _ & _ & E)].
+  - assert (j' = j) by (unfold pid in E; lia). subst. auto.
+  - unfold pid in E. lia.
+Qed.
+
+Lemma cat_rep m t : CF m t -> forall k j p d r,
+  j + k = m + 1 -> Rep t p d (pid j) r -> r = cat_rt k j.
+Proof.
+  intros HC. induction k as [|k IH]; intros j p d r Hjk HR;
+    destruct (RepLib.Rep_inv _ _ _ _ _ HR) as (nd & cs & -> & Hn & _ & _ & _ & _ & HF & _).
+  - rewrite (CF_tip _ _ _ _ HC Hn) in HF by (intros j' Hj'; unfold pid; lia).
+    inversion HF. reflexivity.
+  - assert (Hjm : j <= m) by lia. rewrite (CF_internal _ _ _ _ HC Hjm Hn) in HF.
+    inversion HF as [|a r1 l1 cs1 HR1 HF1]; subst. inversion HF1 as [|a2 r2 l2 cs2 HR2 HF2]; subst.
+    inversion HF2; subst. simpl. f_equal. f_equal.
+    + eapply IH; [|eauto]. lia.
+    + destruct (RepLib.Rep_inv _ _ _ _ _ HR2) as (nd2 & cs2 & -> & Hn2 & _ & _ & _ & _ & HF' & _).
+      rewrite (CF_tip _ _ _ _ HC Hn2) in HF' by (intros j' Hj'; unfold pid; lia).
+      inversion HF'. reflexivity.
+Qed.
+
+Lemma nleaves_cat k j : nleaves (cat_rt k j) = k + 1.
+Proof.
+  revert j; induction k as [|k IH]; intros j; auto.
+  unfold nleaves in *. simpl. rewrite app_length, IH. simpl. lia.
+Qed.
+
+Lemma colless_cat k j : 2 * colless_spec (cat_rt k j) = k * (k - 1).
+Proof.
+  revert j; induction k as [|k IH]; intros j; auto.
+  cbn [cat_rt colless_spec map sum_nat]. rewrite nleaves_cat.
+  change (nleaves (RT (S (pid (S j))) [])) with 1.
+  assert (E : abs_diff (k + 1) 1 = k).
+  { unfold abs_diff. destruct (Nat.leb_spec (k + 1) 1); lia. }
+  rewrite E. specialize (IH (S j)). destruct k; [simpl in *; lia|]. replace (S (S k) - 1) with (S k) by lia. replace (S k - 1) with k in IH by lia. nia.
+Qed.
+
+Theorem cat_shape n b (lens : list L) t :
+  2 <= n -> generate_caterpillar n b lens = Ok (Some t) ->
+  (* the arena represents the caterpillar *)
+  Rep t None 0 0 (caterpillar_rtree n) /\ NoDup (ids (caterpillar_rtree n)) /\
+  (forall i, live t i -> In i (ids (caterpillar_rtree n))) /\
+  (* every internal node has a leaf child *)
+  (forall i nd a c, nth_error t i = Some nd -> nchildren nd = [a; c] -> tipat t c) /\
+  (* maximal Colless index *)
+  colless t = Ok ((n - 1) * (n - 2) / 2).
+Proof.
+  intros Hn H. destruct (cat_final _ _ _ _ Hn H) as ((G & _) & HC).
+  destruct (GI_tree _ _ _ _ G) as (r & HR & Hnd & Hcov).
+  assert (Hr : r = caterpillar_rtree n).
+  { apply (cat_rep (n - 2) t HC (n - 1) 0 None 0); auto. lia. }
+  subst r. splits; auto.
+  - intros i nd a c Hi Hc.
+    destruct (HC _ _ Hi) as [(j & Hj & -> & Hcj)|(j & Hcj & _)]; [|congruence].
+    rewrite Hcj in Hc. injection Hc as <- <-.
+    assert (Hlt : S (pid (S j)) < length t) by (rewrite (gi_len _ _ _ _ G); unfold pid; lia).
+    destruct (nth_error t (S (pid (S j)))) as [nd2|] eqn:E; [|apply nth_error_None in E; lia].
+    exists nd2. split; auto. eapply CF_tip; eauto. intros j' Hj'. unfold pid. lia.
+  - assert (HB : Blank t).
+    { intros i nd Hi Hd. destruct (gi_slot _ _ _ _ G _ _ Hi) as (Hd' & _). congruence. }
+    rewrite (colless_refines t 0 _ HR Hnd Hcov HB).
+    + f_equal. unfold caterpillar_rtree. apply Nat.div_unique_exact; auto.
+      rewrite colless_cat. replace (n - 1 - 1) with (n - 2) by lia. reflexivity.
+    + unfold caterpillar_rtree. destruct (n - 1) eqn:E; [lia|]. reflexivity.
+    + eapply slots_strict_binary; eauto. intros i nd Hi. apply (gi_slot _ _ _ _ G _ _ Hi).
+Qed.
+
 End Gen.
+
+(* ---- assumptions ------------------------------------------------------------------------------------- *)
+Print Assumptions dec_of_nat_inj.
+Print Assumptions gen_zero_refused.
+Print Assumptions gen_no_panic.
+Print Assumptions gen_wf.
+Print Assumptions gen_leaves.
+Print Assumptions gen_binary.
+Print Assumptions gen_binary_tree.
+Print Assumptions gen_names_unique.
+Print Assumptions gen_unique_names_check.
+Print Assumptions gen_lengths.
+Print Assumptions cat_shape.
